@@ -152,9 +152,20 @@ func readEventsOnce(path string) (events []Event, moved bool, err error) {
 	return events, false, err
 }
 
-func scanEvents(path string, file *os.File) ([]Event, error) {
+// maxEventLineBytes bounds one event line. Readers refuse longer lines, so
+// writers must never produce one: a command that stored, say, an 11 MiB body
+// would succeed and leave a log that no command can read any more.
+const maxEventLineBytes = 10 * 1024 * 1024
 
-	const maxEventLineBytes = 10 * 1024 * 1024
+// checkEventSize is applied to every encoded event before it is written.
+func checkEventSize(event Event, encoded []byte) error {
+	if len(encoded)+1 > maxEventLineBytes {
+		return fmt.Errorf("%s event too large to store (%d bytes; the limit for one event is %d)", event.Type, len(encoded), maxEventLineBytes-1)
+	}
+	return nil
+}
+
+func scanEvents(path string, file *os.File) ([]Event, error) {
 
 	// Whether the data ends in a newline is learned from the scan itself, not
 	// from a separate look at the file: a writer may be appending while we
@@ -241,6 +252,9 @@ func appendEvents(path string, events []Event) error {
 	for _, event := range events {
 		data, err := json.Marshal(event)
 		if err != nil {
+			return err
+		}
+		if err := checkEventSize(event, data); err != nil {
 			return err
 		}
 		buf.Write(data)
@@ -330,6 +344,9 @@ func writeEventsFile(path string, events []Event) error {
 		if err != nil {
 			return err
 		}
+		if err := checkEventSize(event, data); err != nil {
+			return err
+		}
 		if _, err := writer.Write(append(data, '\n')); err != nil {
 			return err
 		}
@@ -343,6 +360,7 @@ func writeEventsFile(path string, events []Event) error {
 func replaceEventsAtomically(path string, events []Event) error {
 	tmpPath := path + ".tmp"
 	if err := writeEventsFile(tmpPath, events); err != nil {
+		_ = os.Remove(tmpPath)
 		return err
 	}
 	if err := os.Rename(tmpPath, path); err != nil {
